@@ -49,11 +49,13 @@ fn main() {
             let timeout_ms: u64 = args.get(2).and_then(|s| s.parse().ok()).unwrap_or(15000);
             let stdin = std::io::stdin();
             let stdout = std::io::stdout();
-            for line in stdin.lock().lines() {
-                let line = line.unwrap();
-                let (tx, rx) = std::sync::mpsc::channel();
-                let l2 = line.clone();
-                std::thread::spawn(move || {
+            // ONE long-lived thread runs all the cases of this process, so that the lazily initialised per-thread
+            // state (thread-local contexts of std channels, parkers, ...) is a one-off of the process and that nothing
+            // of the previous case is torn down while the next one measures its allocations
+            let (ltx, lrx) = std::sync::mpsc::channel::<String>();
+            let (tx, rx) = std::sync::mpsc::channel::<String>();
+            std::thread::spawn(move || {
+                for l2 in lrx {
                     let r = std::panic::catch_unwind(|| {
                         let w: Vec<&str> = l2.split_whitespace().collect();
                         if w.is_empty() || w[0] != "sim" {
@@ -71,7 +73,13 @@ fn main() {
                         Ok(s) => s,
                         Err(_) => "HARNESS-PANIC".to_string(),
                     });
-                });
+                }
+            });
+            for line in stdin.lock().lines() {
+                let line = line.unwrap();
+                if ltx.send(line).is_err() {
+                    break;
+                }
                 match rx.recv_timeout(std::time::Duration::from_millis(timeout_ms)) {
                     Ok(s) => {
                         let mut out = stdout.lock();
